@@ -112,7 +112,8 @@ PROPS["C04"] = {
     "bounds": "all 2^96 counter values; one seal per harness; key lifetime < 2^88 seals (before the half marker byte could be "
               "reached by carries) is the stated limit of 'no repeat'; rotation ids r + 4k for all k < 2^32",
     "outside": "whole-lifetime simulated runs; that handle_init feeds `own_hash > peer_hash` into CryptoCore::new (read, not "
-               "encoded: the handshake does not complete under symbolic execution); unpredictability of the start value (RNG trusted)",
+               "encoded for the initiator's Pong arm; the responder's Ping arm is decided with the parser and the writer stubbed); "
+               "unpredictability of the start value (RNG trusted)",
     "assumptions": RING_ASSUME,
     "obligations": [
         K("c04_increment_is_plus_one", "increment = +1 mod 2^96 for every value"),
@@ -129,6 +130,8 @@ PROPS["C04"] = {
         K("c04_rotate_slot2_send", "rotate_key: slot 2", T),
         K("c04_rotate_slot3_recv", "rotate_key: slot 3", T),
         K("c04_half_decision_antisymmetric", "own_hash > peer_hash is antisymmetric on distinct 20-byte hashes"),
+        K("c04_responder_half_is_hash_order", "real handle_init (Ping arm, parser/writer stubbed): the responder's core is created in the half own_hash > peer_hash with the selected cipher",
+          timeout={"quick": 900}),
     ],
 }
 
@@ -148,7 +151,8 @@ PROPS["C08"] = {
     "outside": "handshake-marker path (InitMsg::read_from does not complete under symbolic execution); dispatch on source "
                "address in GenericCloud; sequences of datagrams; 65535-byte datagrams",
     "assumptions": RING_ASSUME,
-    "obligations": [K("c08_core_decrypt_total_len%02d" % n, "CryptoCore::decrypt returns on every %d-byte datagram" % n,
+    "obligations": [K("c08_rejected_handshake_message_leaves_no_state", "handle_init: a handshake datagram the parser/verifier rejects (any error) leaves stage, timers, last message, keys, core and the buffer untouched")] +
+                   [K("c08_core_decrypt_total_len%02d" % n, "CryptoCore::decrypt returns on every %d-byte datagram" % n,
                       ("quick", "thorough") if n in _c08_quick else T, role="c08_core_decrypt_total") for n in _c08_lens] +
                    [K("c08_dispatch_%s_len%02d" % (st, n), "PeerCrypto::handle_message, connection %s, %d-byte datagram + arbitrary stale buffer: no fault, nothing accepted, window well formed" % (st, n),
                       ("quick", "thorough") if (st, n) in _c08_dq else T, role="c08_dispatch")
@@ -391,5 +395,27 @@ PROPS["C07"] = {
         K("c04_rotate_slot0_send", "rotate_key installs into slot id mod 4 and switches the sending slot when asked"),
         K("c04_rotate_slot1_recv", "rotate_key (receive only) leaves the sending slot alone"),
         K("c04_rotate_slot2_send", "slot 2", T), K("c04_rotate_slot3_recv", "slot 3", T),
+    ],
+}
+
+# ------------------------------------------------------------------------------------------------------------ handle_init one-step obligations
+HS_ASSUME = RING_ASSUME[1:] + [
+    "InitMsg::read_from (parser + signature verification) is replaced by its post-condition: it returns either an arbitrary "
+    "error or an arbitrary well-formed message of the kind the harness selects, i.e. what a VERIFIED datagram can contain; "
+    "InitState::send_message (InitMsg::write_to) is replaced by a recorder. Neither completes under symbolic execution (C01)",
+    "ring::digest is an uninterpreted deterministic function (memo table); ring::agreement the commutative model",
+]
+PROPS["C14"] = {
+    "files": ["src/crypto/init.rs"],
+    "functions": ["InitState::handle_init (Ping arm)", "InitState::check_salted_node_id_hash", "InitState::new"],
+    "bounds": "one real handle_init step of a fresh responder (built by the real InitState::new, arbitrary node id and salt) on a "
+              "verified ping whose salted hash was made from the same node id with an arbitrary other salt",
+    "outside": "everything else the property says: full-mesh convergence from any connected bootstrap graph, NAT scenarios, "
+               "adoption of own addresses listed by peers (GenericCloud::connect_to_peers) - whole-node behaviour, not reachable. "
+               "Only the handshake-level self-connection refusal is decided",
+    "assumptions": HS_ASSUME,
+    "obligations": [
+        K("c14_ping_from_own_node_id_is_refused", "a ping from another handshake object of the same node is refused as 'connected to self': no core, no reply, stage unchanged",
+          role="c14_self_ping", timeout={"quick": 600}),
     ],
 }
